@@ -169,6 +169,9 @@ func runC20(r *Report, tier string) {
 		}
 	}
 	r.floorSoft("R20.2", n2, 20, "functions returning (bytes, error)")
+	// a COSE_Sign with an unsigned slot cannot be serialised: every element
+	// passes the Signature encoder, which refuses empty signatures (R11.3)
+	checkSignMessageEncoderElems(r, "R20.3")
 
 	// R20.3
 	nEnc := 0
